@@ -201,6 +201,9 @@ class ComplementaryTableInfo:
         dataframe_state = df.dtypes
         if dataframe_state.equals(self._last_dataframe_state):
             return
+        # _update_columns edits the register in place and may raise halfway through:
+        # nothing is known to be valid until it has completed
+        self._last_dataframe_state = None
         self._update_columns(df)
         # columns of an empty frame are neither registered nor validated (see _update_columns),
         # so an empty frame must not be remembered as validated
